@@ -195,6 +195,20 @@ def check(ctx):
                         recv = op_local(mt_['args'][0])
                         if recv is not None and 'filter::Filter' in body.local_ty(recv):
                             order_ok = True
+            # nothing may drop items between the recording adaptor and storage
+            late_drop = []
+            if it_arg is not None:
+                rec_blocks = [a[3] for a in adaptors if a[0] == 'map' and a[1] and facts.bodies.get(a[1]) and
+                              any(cname(t) == 'alloc::vec::Vec::push' for _, t in facts.bodies[a[1]].calls())]
+                for meth, _cd, _cp, ab in adaptors:
+                    if meth in ('filter', 'filter_map', 'take', 'skip', 'step_by', 'take_while', 'skip_while', 'map_while', 'flat_map', 'chain', 'zip') \
+                            and any(body.dominates(rb, ab) and rb != ab for rb in rec_blocks):
+                        late_drop.append(meth)
+            if rec_vec is not None and order_ok:
+                ctx.ob('C02.O2', key + '|record-is-what-storage-gets', not late_drop, site(body, wt['cs']),
+                       'no adaptor drops or adds documents between the record and the storage call' if not late_drop else
+                       'after the documents were recorded for folding, `%s` changes what reaches storage: the set is folded for documents storage never saw'
+                       % ','.join(late_drop))
             (ctx.ok if gate_ok else ctx.bad)(
                 'C02.O4', key, site(body, wt['cs']),
                 'iterator handed to %s %s filtered by a closure returning will_apply(..)' % (wname, 'is' if gate_ok else 'is NOT'))
